@@ -26,6 +26,7 @@ import pipeline
 LEVEL = "proof"
 QUICK_SWITCHES = [(0, 0, 0, 0), (1, 0, 1, 0), (0, 1, 0, 1)]
 FINDING7 = "cond-recorded-type"
+FINDING7_SIG = "gen_conditional:recorded-type-not-upper-bound-of-branch"
 
 
 # ---------------------------------------------------------------------------------------------
@@ -195,16 +196,24 @@ def mutants(rq, rng):
 
 
 # ---------------------------------------------------------------------------------------------
-def triage(run, spec, ans, rq, javac_cache):
-    """one rejected program: every failing obligation becomes a (known) finding or a violation"""
+def triage(run, spec, ans, rq, javac_cache, unexplained_cond=True):
+    """one rejected program: every failing obligation becomes a (known) finding or a violation.
+    A failing `cond-recorded-type` obligation is finding 7 only when the program's recorded folds of
+    `gen_conditional` explain it (at least as many folds whose result is not an upper bound of both branch
+    types as there are failing conditionals); otherwise it keeps a signature of its own and is a violation."""
     sigs = []
+    ncond = len({tuple(path[:-1]) for path, tag, detail, kinds in ans["fail"] if tag.startswith(FINDING7)})
     for path, tag, detail, kinds in ans["fail"]:
-        sig = "%s:%s" % (tag.split("/")[0] if tag.startswith(FINDING7) else tag, kinds)
+        if tag.startswith(FINDING7):
+            sig = FINDING7_SIG if not unexplained_cond else "%s:unexplained-by-fold:%s" % (FINDING7, kinds)
+            run.tally("cond_recorded_type_kinds", kinds)
+        else:
+            sig = "%s:%s" % (tag, kinds)
         if sig not in sigs:
             sigs.append(sig)
     first = ans["r"]
     rp = {"kind": "failing-input", "replay": replay_key(spec), "error": first, "failures": ans["fail"][:6],
-          "nfail": ans["nfail"]}
+          "nfail": ans["nfail"], "failing_conditionals": ncond}
     if spec["lang"] == "java":
         key = json.dumps(replay_key(spec), sort_keys=True)
         if key not in javac_cache:
@@ -237,11 +246,15 @@ def check_programs(run, specs, label, mutate_every=0):
         rq = add_bt(exp)
         rqs.append(rq)
         metas.append((sp, key, r))
-    answers = common.run_driver(rqs) if rqs else []
+    t0 = time.time()
+    answers = run_driver_sharded(rqs) if rqs else []
+    # decision point gen_conditional: recorded folds vs the Lean model (one driver batch for all programs)
+    notupper = check_folds(run, [(sp, r.get("plugins", {}).get("c01_plugin")) for sp, key, r in metas])
+    run.log("%s: %d programs judged by check.wt in %.0fs" % (label, len(rqs), time.time() - t0))
     javac_cache = {}
     accepted = []
     import export_ast
-    for rq, (sp, key, r), a in zip(rqs, metas, answers):
+    for i, (rq, (sp, key, r), a) in enumerate(zip(rqs, metas, answers)):
         if "error" in a:
             raise common.HarnessError("driver error on %s: %s" % (replay_key(sp), a["error"][:300]))
         run.tally("programs_checked", key)
@@ -260,11 +273,8 @@ def check_programs(run, specs, label, mutate_every=0):
             accepted.append(rq)
         else:
             run.tally("rejected", sp["lang"])
-            triage(run, sp, a, rq, javac_cache)
-        # decision point gen_conditional: recorded folds vs the Lean model
-        pl = r.get("plugins", {}).get("c01_plugin")
-        if pl:
-            check_folds(run, sp, pl)
+            ncond = len({tuple(f[0][:-1]) for f in a["fail"] if f[1].startswith(FINDING7)})
+            triage(run, sp, a, rq, javac_cache, unexplained_cond=ncond > notupper.get(i, 0))
     # negative controls
     if mutate_every and accepted:
         mrqs, mmeta = [], []
@@ -272,7 +282,7 @@ def check_programs(run, specs, label, mutate_every=0):
             for lab, tag, m in mutants(rq, run.rng):
                 mrqs.append(m)
                 mmeta.append((lab, tag))
-        mans = common.run_driver(mrqs) if mrqs else []
+        mans = run_driver_sharded(mrqs) if mrqs else []
         for (lab, tag), a in zip(mmeta, mans):
             if "error" in a:
                 raise common.HarnessError("driver error on mutant %s: %s" % (lab, a["error"][:300]))
@@ -283,24 +293,114 @@ def check_programs(run, specs, label, mutate_every=0):
     return len(rqs)
 
 
-def check_folds(run, sp, pl):
-    folds = pl.get("folds", [])
-    if not folds:
-        return
-    rqs = []
-    for f in folds:
-        rqs.append({"op": "check.condtype", "tt": pl["tt"], "tmp": f["tmp"], "t": f["t"], "f": f["f"],
-                    "expect": f["out"]})
-    ans = common.run_driver(rqs)
-    for f, a in zip(folds, ans):
+def run_driver_sharded(rqs, shards=6):
+    """the driver is a sequential process: split a large batch over a few driver processes"""
+    if len(rqs) < 4 * shards:
+        return common.run_driver(rqs)
+    from concurrent.futures import ThreadPoolExecutor
+    parts = [rqs[i::shards] for i in range(shards)]
+    with ThreadPoolExecutor(shards) as ex:
+        outs = list(ex.map(common.run_driver, parts))
+    ans = [None] * len(rqs)
+    for k, out in enumerate(outs):
+        ans[k::shards] = out
+    return ans
+
+
+def check_folds(run, plugin_outputs):
+    """recorded folds of `gen_conditional` against the model `condType`; returns {program index: number of folds
+    whose result is not an upper bound of both branch types}"""
+    rqs, owner = [], []
+    for i, (sp, pl) in enumerate(plugin_outputs):
+        if not pl:
+            continue
+        if "error" in pl:
+            raise common.HarnessError("c01_plugin failed on %s: %s" % (replay_key(sp), pl["error"]))
+        for f in pl.get("folds", []):
+            rqs.append({"op": "check.condtype", "tt": pl["tt"], "tmp": f["tmp"], "t": f["t"], "f": f["f"],
+                        "expect": f["out"]})
+            owner.append((i, sp, f))
+    notupper = {}
+    if not rqs:
+        return notupper
+    ans = run_driver_sharded(rqs)
+    for (i, sp, f), a in zip(owner, ans):
         if "error" in a:
             raise common.HarnessError("driver error on fold: %s" % a["error"][:300])
         run.tally("gen_conditional_folds", "agree" if a["r"]["same"] is True else "differ")
         run.tally("gen_conditional_fold_upper", "upper-bound" if a["r"]["upper"] else "not-upper-bound")
+        if not a["r"]["upper"]:
+            notupper[i] = notupper.get(i, 0) + 1
         if a["r"]["same"] is not True:
             run.violation({"kind": "broken-correspondence", "correspondence": "gen_conditional fold vs condType",
                            "replay": replay_key(sp), "fold": f, "model": a["r"]},
                           signature="condType:model-differs", no_input=True)
+    return notupper
+
+
+def fold_witness(run):
+    """replay of the witness of `condType_counterexample` on the REAL `Generator.gen_conditional`: expected type
+    Number, draws true_type = Float, false_type = Long, tmp_t = Long (Kotlin built-ins).  The three
+    `random.choice` draws are forced, the sub-expressions are bottom constants of the asked type.  The recorded type
+    is judged by the declarative decider (check.subd): it must be assignable-from both branch types."""
+    pipeline.setup()
+    import src.generators.generator as G
+    from src.ir import kotlin_types as kt, ast
+    from src.ir.context import Context
+    pipeline.configure("kotlin", (0, 0, 0, 0), 6)
+    gen = G.Generator(language="kotlin", options={}, logger=None)
+    gen.context = Context()
+    draws = [kt.Float, kt.Long, kt.Long]          # true_type, false_type, tmp_t in the order of the code
+    seen = []
+
+    class _R:
+        def __getattr__(self, k):
+            return getattr(orig, k)
+
+        def choice(self, xs):
+            xs = list(xs)
+            t = draws[len(seen)]
+            if t not in xs:
+                raise common.HarnessError("fold witness: %s is not among the subtypes offered by find_subtypes" % t)
+            seen.append(t)
+            return t
+    orig = G.ut.random
+    gen.generate_expr = lambda t, *a, **k: ast.BottomConstant(t)
+    G.ut.random = _R()
+    try:
+        node = gen.gen_conditional(kt.Number, only_leaves=True, subtype=True)
+    finally:
+        G.ut.random = orig
+    if len(seen) != 3:
+        raise common.HarnessError("fold witness: gen_conditional drew %d types, expected 3" % len(seen))
+    rec = node.get_type()
+    tt = export.TypeTable()
+    base = {"lang": "kotlin", "tt": None, "decls": []}
+    i_rec, i_t, i_f, i_n = tt.add(rec), tt.add(kt.Float), tt.add(kt.Long), tt.add(kt.Number)
+    base["tt"] = tt.entries
+    rq = add_bt(base)
+    rqs = [dict(rq, op="check.subd", s=i_t, t=i_rec), dict(rq, op="check.subd", s=i_f, t=i_rec),
+           {"op": "check.condtype", "tt": rq["tt"], "tmp": i_f, "t": i_t, "f": i_f, "expect": i_rec}]
+    ans = common.run_driver(rqs)
+    for a in ans:
+        if "error" in a:
+            raise common.HarnessError("driver error on fold witness: %s" % a["error"][:300])
+    upper = ans[0]["r"] is True and ans[1]["r"] is True
+    variant = "as-is (fold result recorded)" if ans[2]["r"]["same"] is True else (
+        "repaired (expected type recorded)" if rec == kt.Number else "other")
+    run.tally("fold_witness", "%s: recorded %s, %s" % (variant, rec, "upper bound" if upper else "NOT an upper bound"))
+    run.cov["fold_witness"] = {"expected": "Number", "true_type": "Float", "false_type": "Long", "tmp_t": "Long",
+                               "recorded": str(rec), "upper_bound_of_branches": upper, "variant": variant}
+    run.count({"fold_witness": str(rec)}, nontrivial=True)
+    if not upper:
+        run.violation({"kind": "failing-input", "what": "gen_conditional(Number) with forced draws true=Float, "
+                       "false=Long, tmp=Long records %s, which does not bound the Float branch" % rec,
+                       "replay": {"witness": "fold", "lang": "kotlin"}, "theorem": "condType_counterexample"},
+                      signature=FINDING7_SIG)
+    elif variant == "other":
+        run.violation({"kind": "broken-correspondence", "what": "gen_conditional recorded %s for the fold witness: "
+                       "neither the fold result nor the expected type" % rec,
+                       "replay": {"witness": "fold", "lang": "kotlin"}}, signature="condType:witness-other")
 
 
 def check(run):
@@ -332,6 +432,7 @@ def check(run):
                 rp = json.load(open(os.path.join(cdir, fn)))["replay"]
                 corpus.append(spec_of(rp["lang"], rp["seed"], rp["switches"], rp["max_depth"], 120,
                                       plugins=["c01_plugin"]))
+    fold_witness(run)
     if corpus:
         check_programs(run, corpus, "corpus")
     n = check_programs(run, specs, "generated", mutate_every=4 if quick else 40)
@@ -344,6 +445,10 @@ def check(run):
 
 def replay(run, rp):
     r = rp["replay"]
+    if r.get("witness") == "fold":
+        run.cov["rule"] = "replay of the fold witness on the real gen_conditional"
+        fold_witness(run)
+        return
     run.cov["rule"] = "replay of one generated program (lang, seed, switches, max_depth) through the verified checker"
     check_programs(run, [spec_of(r["lang"], r["seed"], r["switches"], r["max_depth"], 600, plugins=["c01_plugin"])],
                    "replay")
